@@ -17,6 +17,7 @@ import (
 	"hash/fnv"
 	"math/big"
 	"os"
+	"runtime/debug"
 	"runtime/pprof"
 	"sort"
 	"strconv"
@@ -539,6 +540,10 @@ type runner struct {
 func (r *runner) fail(op, clause, detail string, tags ...string) {
 	cl := "c04." + r.kind + "." + op + "." + clause
 	for _, t := range tags {
+		if t == "after-label-mismatch" {
+			// one defect, whichever operation on the remainder shows it
+			cl = "c04." + r.kind + ".on-remainder." + clause
+		}
 		cl += "." + t
 	}
 	if _, ok := r.fails[cl]; ok {
@@ -872,20 +877,25 @@ func runCase(d Data, kind string, content absconf.Body, real Real) (*runner, []s
 	return r, texts, splits, nil
 }
 
+// first picks the failure a case reports: a class that is not a recorded open
+// finding before a recorded one; a failure of the main observations before one
+// of the JustAttributes side observation; then by class name.
 func (r *runner) first() *failure {
+	rank := func(f *failure) string {
+		k := "0"
+		if knownOpen[f.class] {
+			k = "1"
+		}
+		if strings.Contains(f.class, ".justattrs-on-remainder.") {
+			k += "1"
+		} else {
+			k += "0"
+		}
+		return k + f.class
+	}
 	var best *failure
 	for _, f := range r.fails {
-		if best == nil {
-			best = f
-			continue
-		}
-		if knownOpen[f.class] != knownOpen[best.class] {
-			if !knownOpen[f.class] {
-				best = f
-			}
-			continue
-		}
-		if f.class < best.class {
+		if best == nil || rank(f) < rank(best) {
 			best = f
 		}
 	}
@@ -926,7 +936,7 @@ func judge(c engine.Case) engine.Outcome {
 	if f != nil {
 		var others []string
 		for cl := range r.fails {
-			if cl != f.class {
+			if cl != f.class && !(d.Real.Kind == "merged" && strings.HasSuffix(cl, f.class[strings.Index(f.class[4:], ".")+4:])) {
 				others = append(others, cl)
 			}
 		}
@@ -1112,10 +1122,10 @@ func realisations(content absconf.Body, thorough bool) []Real {
 func gen(tier string, emit func(engine.Case) bool) {
 	thorough := tier == "thorough"
 	alpha := []alt{{attr: "a"}, {attr: "b"}, {block: "x"}, {block: "x", labels: 1}, {block: "x", labels: 2}, {block: "y"}}
-	names, maxSchema, parts, maxLen := "abxy", 4, 2, 3
+	names, maxSchema, parts, maxLen := "abxy", 3, 2, 3
 	if thorough {
-		alpha = []alt{{attr: "a"}, {attr: "b"}, {attr: "c"}, {block: "x"}, {block: "x", labels: 1}, {block: "x", labels: 2}, {block: "y"}, {block: "y", labels: 1}, {block: "y", labels: 2}}
-		names, maxSchema, parts = "abcxyz", 6, 3
+		alpha = []alt{{attr: "a"}, {attr: "b"}, {block: "x"}, {block: "x", labels: 1}, {block: "x", labels: 2}, {block: "y"}, {block: "y", labels: 1}}
+		names, maxSchema, parts = "abxyz", 4, 3
 	}
 	n := 0
 	contents(alpha, maxLen, func(b absconf.Body) bool {
@@ -1200,7 +1210,44 @@ func shrink(c engine.Case) []engine.Case {
 	return out
 }
 
+func countMode(tier string) {
+	var cases, splits int64
+	per := map[string]int64{}
+	gen(tier, func(c engine.Case) bool {
+		d := c.Data.(Data)
+		key := fmt.Sprint(d.Names, d.MaxSchema, d.Parts, d.Swap)
+		if _, ok := per[key]; !ok {
+			n := int64(0)
+			for _, es := range schemas(d.Names, d.MaxSchema, d.Swap) {
+				m := len(es)
+				n += 1 << m
+				if d.Parts == 3 {
+					// onto maps to 3 parts: 3^m - 3*2^m + 3
+					p3 := int64(1)
+					for i := 0; i < m; i++ {
+						p3 *= 3
+					}
+					if m >= 3 {
+						n += p3 - 3*(1<<m) + 3
+					}
+				}
+			}
+			per[key] = n
+			fmt.Println("schemas", len(schemas(d.Names, d.MaxSchema, d.Swap)), "splits per case", n)
+		}
+		cases++
+		splits += per[key]
+		return true
+	})
+	fmt.Println("cases", cases, "splits", splits)
+}
+
 func main() {
+	if len(os.Args) > 2 && os.Args[1] == "count" {
+		countMode(os.Args[2])
+		return
+	}
+	debug.SetGCPercent(800) // the cases allocate many tiny short-lived objects; the live heap is a few MB
 	if p := os.Getenv("VERIF_CPUPROFILE"); p != "" {
 		f, _ := os.Create(p)
 		pprof.StartCPUProfile(f)
